@@ -457,3 +457,28 @@ func nilCtxDefault(call *ssa.Call) *ssa.Parameter {
 	}
 	return prm
 }
+
+// entryParam: v is a parameter, or the load — in the entry block — of the cell a parameter
+// was spilled to (captured by closures), where the cell still holds the parameter.
+func entryParam(v ssa.Value) *ssa.Parameter {
+	v = stripConv(v)
+	if p, ok := v.(*ssa.Parameter); ok {
+		return p
+	}
+	ld, ok := v.(*ssa.UnOp)
+	if !ok || ld.Op != token.MUL || ld.Block() == nil || ld.Block().Index != 0 {
+		return nil
+	}
+	al, ok := ld.X.(*ssa.Alloc)
+	if !ok {
+		return nil
+	}
+	for _, ref := range *al.Referrers() {
+		if st, ok := ref.(*ssa.Store); ok && st.Addr == ssa.Value(al) && st.Block().Index == 0 {
+			if p, ok := stripConv(st.Val).(*ssa.Parameter); ok {
+				return p
+			}
+		}
+	}
+	return nil
+}
